@@ -104,7 +104,7 @@ def combInnerEv (st : CombSt) : Ev → CombSt
               innerNameIndexValueMapping := lmInsert [] st.innerNameIndexValueMapping i name }
 
 structure CombCfg where
-  /-- the generated text (`source`), used as a hash-map key at helpers.rs:1014 -/
+  /-- the generated text (`source`); before fix F15 it was used as the de-duplication key at helpers.rs:1023 -/
   genText : Text
   innerName : Text
   innerMap : SMap
@@ -155,8 +155,8 @@ def combNoInner (cfg : CombCfg) (st : CombSt) (chunk : Option Text) (m : Mapping
         combPass { st with sourceIndexMapping := lmInsert 0 st.sourceIndexMapping sourceIndex.toNat g } chunk m sourceIndex origLine origCol nameIndex
       | none =>
         let len := st.sourceMapping.length
-        -- helpers.rs:1014 registers the *generated text* as key
-        let st' := { st with sourceMapping := st.sourceMapping.insert cfg.genText len
+        -- helpers.rs:1023 registers the inner source name as key (fix F15; the pinned tree registered the generated text)
+        let st' := { st with sourceMapping := st.sourceMapping.insert cfg.innerName len
                              sourceIndexMapping := lmInsert 0 st.sourceIndexMapping sourceIndex.toNat len }
         let r := combPass st' chunk m sourceIndex origLine origCol nameIndex
         (r.1, .source len cfg.innerName st.innerSource :: r.2)
@@ -186,6 +186,13 @@ def combSrcResolve (st : CombSt) (isi : Nat) : CombSt × List Ev × Int :=
     ({ st with sourceMapping := r.1, innerSourceIndexMapping := lmInsert 0 st.innerSourceIndexMapping isi r.2.2 }, r.2.1, (r.2.2 : Int))
   else (st, [], si0)
 
+/-- the original text at the composed location, as long as the outer name (helpers.rs:929-947) -/
+def combOrigName (lines : List Text) (seg : InnerSeg) (ioc : Int) (len : Nat) : Text :=
+  if seg.line ≤ 0 then [] else
+  match lines[seg.line.toNat - 1]? with
+  | some ln => csub ln ioc.toNat (ioc.toNat + len)
+  | none => []
+
 /-- "emit name when needed and compute global name index" (helpers.rs:889-976) -/
 def combNameResolve (st1 : CombSt) (isi : Nat) (seg : InnerSeg) (ini nameIndex ioc : Int) : CombSt × List Ev × Int :=
   if ini ≥ 0 then
@@ -203,12 +210,7 @@ def combNameResolve (st1 : CombSt) (isi : Nat) (seg : InnerSeg) (ini nameIndex i
     | some lines =>
       -- `unwrap_or_default()`: fix F5
       let name := st1.nameIndexValueMapping.getD nameIndex.toNat []
-      let origName : Text :=
-        if seg.line ≤ 0 then [] else
-        match lines[seg.line.toNat - 1]? with
-        | some ln => csub ln ioc.toNat (ioc.toNat + name.length)
-        | none => []
-      if name == origName then
+      if name == combOrigName lines seg ioc name.length then
         let f0 : Int := (st1.nameIndexMapping[nameIndex.toNat]?).getD (-2)
         if f0 == -2 then
           match st1.nameIndexValueMapping[nameIndex.toNat]? with
